@@ -372,6 +372,62 @@ def _split_tuple_assign(fn):
     return n_done
 
 
+def _with_closing_self(fn):
+    """`with closing(self): BODY` (contextlib.closing, no `as`) is `try: BODY finally: self.close()`."""
+    n_done = 0
+    for node in ast.walk(fn):
+        for fld in ("body", "orelse", "finalbody"):
+            body = getattr(node, fld, None)
+            if not isinstance(body, list):
+                continue
+            for i, st in enumerate(body):
+                if isinstance(st, ast.With) and len(st.items) == 1 and st.items[0].optional_vars is None:
+                    c = st.items[0].context_expr
+                    if isinstance(c, ast.Call) and not c.keywords and len(c.args) == 1 and isinstance(c.args[0], ast.Name) and \
+                            c.args[0].id == "self" and ((isinstance(c.func, ast.Name) and c.func.id == "closing") or (
+                                isinstance(c.func, ast.Attribute) and c.func.attr == "closing" and isinstance(c.func.value, ast.Name)
+                                and c.func.value.id == "contextlib")):
+                        call = ast.Expr(value=ast.Call(func=ast.Attribute(value=ast.Name(id="self", ctx=ast.Load()), attr="close",
+                                                                          ctx=ast.Load()), args=[], keywords=[]))
+                        t = ast.Try(body=st.body, handlers=[], orelse=[], finalbody=[call])
+                        ast.copy_location(t, st)
+                        ast.copy_location(call, st)
+                        ast.fix_missing_locations(t)
+                        body[i] = t
+                        n_done += 1
+    return n_done
+
+
+def _merge_destructuring(fn):
+    """`t, a, b = X` immediately followed by `m, c = t`, with `t` used nowhere else in the function, is the nested form
+    `(m, c), a, b = X` (only locals are bound in between; a malformed value fails in the same statement pair either way)."""
+    n_done = 0
+    counts = {}
+    for x in ast.walk(fn):
+        if isinstance(x, ast.Name):
+            counts[x.id] = counts.get(x.id, 0) + 1
+    for node in ast.walk(fn):
+        for fld in ("body", "orelse", "finalbody"):
+            body = getattr(node, fld, None)
+            if not isinstance(body, list):
+                continue
+            i = 0
+            while i + 1 < len(body):
+                a, b = body[i], body[i + 1]
+                if isinstance(a, ast.Assign) and len(a.targets) == 1 and isinstance(a.targets[0], ast.Tuple) and \
+                        isinstance(b, ast.Assign) and len(b.targets) == 1 and isinstance(b.targets[0], ast.Tuple) and \
+                        isinstance(b.value, ast.Name) and counts.get(b.value.id) == 2 and \
+                        not any(isinstance(e_, ast.Starred) for e_ in a.targets[0].elts + b.targets[0].elts):
+                    idx = [k for k, e_ in enumerate(a.targets[0].elts) if isinstance(e_, ast.Name) and e_.id == b.value.id]
+                    if len(idx) == 1 and all(isinstance(e_, ast.Name) for e_ in b.targets[0].elts):
+                        a.targets[0].elts[idx[0]] = ast.copy_location(ast.Tuple(elts=b.targets[0].elts, ctx=ast.Store()), a.targets[0])
+                        del body[i + 1]
+                        n_done += 1
+                        continue
+                i += 1
+    return n_done
+
+
 def _with_suppress(fn):
     """`with contextlib.suppress(E1, E2): BODY` is `try: BODY except (E1, E2): pass` (the documented equivalence; only for the
     single-item form without `as`). Returns the number of rewrites."""
@@ -494,6 +550,8 @@ class Repo:
             n += TI.normalise_function(f.node, kl.get(q, set()))
             n += _with_from_acquire(f.node)
             n += _with_suppress(f.node)
+            n += _merge_destructuring(f.node)
+            n += _with_closing_self(f.node)
             n += _split_tuple_assign(f.node)
             n += _splice_starred_displays(f.node)
             if owner is not None:
